@@ -22,7 +22,7 @@ RULE = ('2-4 contenders (threads sharing one Cache, threads with their own Cache
         'CLOCK_MONOTONIC stamps. evaluations = schedules and process runs judged; distinct_nontrivial = distinct '
         'schedules in which a contender was preempted while holding')
 DISTINCT = ('schedules_preempted_while_holding', 'process_runs')
-REQUIRED = ('recipe_arguments_by_position', 'barrier_rounds_beside_a_direct_holder', 'critical_sections_that_failed', 'with_statement_sections', 'schedules_lock', 'schedules_rlock', 'schedules_semaphore', 'schedules_barrier', 'critical_sections',
+REQUIRED = ('schedules_on_jsondisk', 'recipe_arguments_by_position', 'barrier_rounds_beside_a_direct_holder', 'critical_sections_that_failed', 'with_statement_sections', 'schedules_lock', 'schedules_rlock', 'schedules_semaphore', 'schedules_barrier', 'critical_sections',
             'contended_acquires', 'nested_acquires', 'refused_releases', 'process_runs_done', 'fanout_schedules',
             'fork_runs_done', 'waiting_contenders_failed_by_injection', 'contenders_with_pickled_handles')
 ASSUMPTIONS = ('witness intervals lie strictly inside the claimed hold period, so an overlap is a proof and clock '
@@ -47,11 +47,20 @@ def schedule(dc, sc, res, rng, label, kind):
         res.count('fanout_schedules')
         res.count('contenders_with_pickled_handles', sum(1 for c in caches if c is not base))
     else:
-        base = dc.Cache(d, timeout=0)
-        caches = LateHandles(rng, n, lambda: dc.Cache(d, timeout=0), shared=base if topo == 'shared' else None, reopen=0.0)
+        # the cache may have been created with another Disk class and a setting of its own (JSONDisk, compress level 6)
+        # that the other contenders' handles do not repeat: they name the class (it is not stored) and find the rest
+        json_disk = rng.random() < 0.25
+        first_kw = {'disk': dc.JSONDisk, 'disk_compress_level': 6} if json_disk else {}
+        later_kw = {'disk': dc.JSONDisk} if json_disk else {}
+        res.count('schedules_on_jsondisk' if json_disk else 'schedules_on_disk')
+        base = dc.Cache(d, timeout=0, **first_kw)
+        caches = LateHandles(rng, n, lambda: dc.Cache(d, timeout=0, **later_kw), shared=base if topo == 'shared' else None,
+                             reopen=0.0, first=base if rng.random() < 0.6 else None)
     value = rng.randrange(1, 4) if kind == 'semaphore' else 1
     # the lock lives under an ordinary cache key: any key is legal, falsy ones too
     lock_key = rng.choice(['the-lock', 'the-lock', '', 0, b'', ('lock', 1), 0.0])
+    if topo != 'fanout' and json_disk and isinstance(lock_key, bytes):
+        lock_key = 'the-lock'        # (bytes are not JSON)
     res.count('lock_keys_falsy' if not lock_key else 'lock_keys_other')
     sch = Sched(rng, clock, strategy=rng.choice(['random', 'random', 'preempt']), max_steps=12000,
                 preempt_points={rng.randrange(0, 300) for _ in range(4)})
